@@ -156,6 +156,8 @@ func parsePkts(s string) ([]pkt, bool) {
 	return res, true
 }
 
+var hsTimeouts int
+
 const hsCryptoKey = "verif-fixed-crypto-key-0123456789abcdef"
 
 type sideRes struct {
@@ -215,6 +217,9 @@ func hs(args []string) string {
 		}
 		corOff, corXor = o, byte(x)
 	}
+	if hsTimeouts >= 2 {
+		return "hs-timeout" // the transport is broken in this build: do not wait 20 s for every further case
+	}
 	oldRand := cryptorand.Reader
 	cryptorand.Reader = constReader{byte(seed)}
 	defer func() { cryptorand.Reader = oldRand }()
@@ -272,7 +277,21 @@ func hs(args []string) string {
 		sres.werr = writeAll(spc, spk)
 		sc.CloseWrite()
 	}()
-	wg.Wait()
+	// watchdog: a broken transport may leave one side waiting for bytes that never come
+	done := make(chan struct{})
+	go func() { wg.Wait(); close(done) }()
+	select {
+	case <-done:
+	case <-time.After(20 * time.Second):
+		hsTimeouts++
+		cc.Close()
+		sc.Close()
+		select {
+		case <-done:
+		case <-time.After(10 * time.Second):
+		}
+		return "hs-timeout"
+	}
 	if cres.hsErr != nil || sres.hsErr != nil {
 		return "hs-failed"
 	}
